@@ -385,14 +385,30 @@ var c19sNoise = func() []byte { //nolint:gochecknoglobals
 	return out
 }()
 
+var (
+	c19sZeroMu sync.Mutex //nolint:gochecknoglobals
+	c19sZeros  []byte     //nolint:gochecknoglobals
+)
+
+// c19sPadding returns n bytes of padding. Nothing ever writes to them: zero
+// padding is a slice of one shared buffer (messages of tens of megabytes are
+// sized by bisection; allocating every candidate would cost gigabytes).
 func c19sPadding(style string, n int) []byte {
 	if n < 0 {
 		n = 0
 	}
 	if style == "noise" {
+		if n > len(c19sNoise) {
+			panic("c19s harness: incompressible padding is limited to 512 KiB")
+		}
 		return c19sNoise[:n]
 	}
-	return make([]byte, n)
+	c19sZeroMu.Lock()
+	defer c19sZeroMu.Unlock()
+	if len(c19sZeros) < n {
+		c19sZeros = make([]byte, max(n, 2*len(c19sZeros), 1<<16))
+	}
+	return c19sZeros[:n:n]
 }
 
 func c19sUnaryDef(data []byte, hdrPad string) *conformancev1.UnaryResponseDefinition {
@@ -995,6 +1011,18 @@ func c19sRawSide(env *c19sEnv, tc c19sCase) (c19sVerdict, error) {
 		verdict.Key = "limit-not-per-message:server"
 		verdict.Detail = describe("every message of the stream is within the limit, yet the stream was rejected with resource_exhausted")
 		verdict.Outcome = "WITHIN-LIMIT-STREAM-REJECTED"
+		if m := c19sSizeInMessage.FindStringSubmatch(message); m != nil {
+			// the error names the size it objects to: if that is the size of one of the
+			// messages, a single message within the limit was held to be too large
+			for _, size := range sizes {
+				if m[1] == strconv.Itoa(size) {
+					verdict.Key = "limit-not-sharp:server:" + tc.Compression
+					verdict.Detail = describe(fmt.Sprintf("a message of %d bytes, which is within the limit, was rejected", size))
+					verdict.Outcome = "WITHIN-LIMIT-REJECTED"
+					break
+				}
+			}
+		}
 	default:
 		verdict.Key = "limit-wrong-code:server"
 		want := "success"
@@ -1285,6 +1313,34 @@ func c19sEnumerate(thorough bool, visit func(tc c19sCase) bool) {
 	}
 }
 
+// c19sJudge runs a case; a would-be violation must reproduce twice more.
+func c19sJudge(t *testing.T, r *rep.Report, env *c19sEnv, tc c19sCase, verbose bool) (c19sVerdict, bool) {
+	t.Helper()
+	verdict, err := c19sRun(env, tc)
+	if err != nil {
+		t.Errorf("harness error in case %s: %v", tc, err)
+		return verdict, false
+	}
+	if verbose {
+		fmt.Printf("case %s\n  outcome=%s key=%q\n  %s\n", tc, verdict.Outcome, verdict.Key, verdict.Detail)
+	}
+	if verdict.Key != "" && verdict.Outcome == "DEADLOCK" {
+		// established structurally (wait-for cycle), no need to repeat
+		r.Violate(verdict.Key, verdict.Detail, tc)
+	} else if verdict.Key != "" {
+		for i := 0; i < 2; i++ {
+			again, err := c19sRun(env, tc)
+			if err != nil || again.Key != verdict.Key {
+				r.Count("unstable", 1)
+				t.Errorf("unstable outcome for case %s: first %q, then %q (err=%v)", tc, verdict.Key, again.Key, err)
+				return verdict, false
+			}
+		}
+		r.Violate(verdict.Key, verdict.Detail, tc)
+	}
+	return verdict, true
+}
+
 func TestVerifC19Sharp(t *testing.T) {
 	r := rep.New("c19-sharp")
 	defer r.Write()
@@ -1298,32 +1354,7 @@ func TestVerifC19Sharp(t *testing.T) {
 	env := &c19sEnv{servers: map[string]*c19sServer{}, client: c19sStartClient()}
 	defer env.shutdown()
 
-	// judge runs a case; a would-be violation must reproduce twice more.
-	judge := func(tc c19sCase, verbose bool) (c19sVerdict, bool) {
-		verdict, err := c19sRun(env, tc)
-		if err != nil {
-			t.Errorf("harness error in case %s: %v", tc, err)
-			return verdict, false
-		}
-		if verbose {
-			fmt.Printf("case %s\n  outcome=%s key=%q\n  %s\n", tc, verdict.Outcome, verdict.Key, verdict.Detail)
-		}
-		if verdict.Key != "" && verdict.Outcome == "DEADLOCK" {
-			// established structurally (wait-for cycle), no need to repeat
-			r.Violate(verdict.Key, verdict.Detail, tc)
-		} else if verdict.Key != "" {
-			for i := 0; i < 2; i++ {
-				again, err := c19sRun(env, tc)
-				if err != nil || again.Key != verdict.Key {
-					r.Count("unstable", 1)
-					t.Errorf("unstable outcome for case %s: first %q, then %q (err=%v)", tc, verdict.Key, again.Key, err)
-					return verdict, false
-				}
-			}
-			r.Violate(verdict.Key, verdict.Detail, tc)
-		}
-		return verdict, true
-	}
+	judge := func(tc c19sCase, verbose bool) (c19sVerdict, bool) { return c19sJudge(t, r, env, tc, verbose) }
 
 	if data := rep.ReplayInput(); data != nil {
 		var rec struct {
